@@ -1982,12 +1982,13 @@ public:
       if (!has_partitions()) {
         return m_absval[v];
       } else {
+        // Intersection semantics: all the elements of the product
+        // describe the same states.
+        interval_t res = interval_t::top();
         for (auto &e : m_product) {
-          if (!e.get_variable()) {
-            return e[v];
-          }
+          res = res & e[v];
         }
-        CRAB_ERROR("operator[] unreachable");
+        return res;
       }
     }
   }
@@ -2001,12 +2002,13 @@ public:
       if (!has_partitions()) {
         return m_absval.at(v);
       } else {
+        // Intersection semantics: all the elements of the product
+        // describe the same states.
+        interval_t res = interval_t::top();
         for (auto const &e : m_product) {
-          if (!e.get_variable()) {
-            return e.at(v);
-          }
+          res = res & e.at(v);
         }
-        CRAB_ERROR("at unreachable");
+        return res;
       }
     }
   }
@@ -2080,12 +2082,13 @@ public:
       if (!has_partitions()) {
         return m_absval.to_linear_constraint_system();
       } else {
+        // Intersection semantics: all the elements of the product
+        // describe the same states.
+        linear_constraint_system_t out;
         for (auto const &e : m_product) {
-          if (!e.get_variable()) {
-            return e.to_linear_constraint_system();
-          }
+          out += e.to_linear_constraint_system();
         }
-        CRAB_ERROR("to_linear_constraint_system unreachable");
+        return out;
       }
     }
   }
